@@ -350,8 +350,11 @@ def install(eng):
         return NotImplemented
     M(r'^<.* as std::iter::Iterator>::collect$', it_collect)
     def it_sum(e, st, fr, f, a, m):
-        it = _need_dense(a[0]); acc = fconst(0)
-        for _, x in it.ents: acc = eng.binop('Add', acc, D(st, x))
+        it = _need_dense(a[0]); acc = None
+        for _, x in it.ents:
+            v = D(st, x)
+            acc = v if acc is None else (eng.binop('Add', acc, v) if isinstance(v, F) else (acc + v if not isz(acc) and not isz(v) else zi(acc) + zi(v)))
+        if acc is None: acc = 0 if re.search(r'sum::<(usize|u\d+|i\d+|isize)>', f) else fconst(0)
         return one(st, acc)
     M(r'^<.* as std::iter::Iterator>::sum$', it_sum)
     def it_fold(e, st, fr, f, a, m):
@@ -371,8 +374,20 @@ def install(eng):
     M(r'^<.* as std::iter::Iterator>::(all|any)$', it_all_any)
     def it_for_each(e, st, fr, f, a, m):
         it, clo = a
-        for _, x in _need_dense(it).ents: st, _r = eng.call1(st, fr, clo, [x])
-        return one(st, UNIT)
+        if all(g is True for g, _ in it.ents):
+            for _, x in it.ents: st, _r = eng.call1(st, fr, clo, [x])
+            return one(st, UNIT)
+        # guarded entries (outcomes of different length were merged): an entry takes part exactly when its guard holds
+        cur = [st]
+        for g, x in it.ents:
+            nxt = []
+            for s0 in cur:
+                if g is True: nxt += [s1 for s1, _r in eng.call_closure(s0, fr, clo, [x])]; continue
+                if g is False: nxt.append(s0); continue
+                sa = s0.clone(); sa.assume(g); nxt += [s1 for s1, _r in eng.call_closure(sa, fr, clo, [x])]
+                sb = s0.clone(); sb.assume(z3.Not(zb(g))); nxt.append(sb)
+            cur = nxt
+        return [(s0, UNIT) for s0 in cur]
     M(r'^<.* as std::iter::Iterator>::for_each$', it_for_each)
     def vec_from_array(e, st, fr, f, a, m):
         return one(st, VecV.dense(list(a[0].items)))
